@@ -32,6 +32,8 @@ def classify(x, kind):
 def acceptable(exp, got, kind, final):
     if exp == got:
         return True
+    if kind == "magic" and got in ("EACCES", "EPERM"):
+        return True      # a magic-link of another process that the caller may not read: the kernel itself denies it
     if exp == "ERR":
         return got not in ("self", "target", "body")
     if exp == "ERR-or-inside":
